@@ -81,5 +81,20 @@ CHECKS['C20'] = dict(
           'indentation string (repo commit "fix: honour an empty indent_str in Indentator").'),
 )
 
-NOT_APPLICABLE = {p: PENDING for p in ['C01', 'C02', 'C03', 'C04', 'C05', 'C06', 'C07', 'C09', 'C12',
+CHECKS['C06'] = dict(
+    engine='E1 pyvc + E3 charclass + E4',
+    level='proof',
+    ref='DESIGN.md 4 (C06), 3.2, 3.4',
+    technique='deductive: VCs from the real AST for the column arithmetic and keyword classification (z3); exhaustive code-point interval algebra and exhaustive short-string language equality on the real compiled regexes',
+    text=('Relative to the assumed ply.lex contract (a token is the input substring at its offset, only t_ignore characters are '
+          'skipped), the obligations show for all inputs: everything skipped is ES5 white space and never a line terminator; the '
+          'line-terminator and comment regexes accept exactly the ES5 languages (exhaustive on all short strings over separating '
+          'alphabets, which is complete for these one-character-lookahead regexes only up to the stated length); longer punctuators '
+          'precede their prefixes in the real master regex; keyword classification is the exact-match table of ES5 reserved words '
+          '(t_ID proved path by path); columns are offset - line start + 1. The newline bookkeeping loop itself is bounded only.'),
+    note=('Trusted: ply.lex contract, Python re, unicodedata 15. Lexer._update_newline_idx: regex decided exhaustively, loop '
+          'bounded. Repo fix: U+2028/U+2029 removed from t_ignore.'),
+)
+
+NOT_APPLICABLE = {p: PENDING for p in ['C01', 'C02', 'C03', 'C04', 'C05', 'C07', 'C09', 'C12',
                                         'C13', 'C14', 'C15', 'C17', 'C18', 'C19']}
